@@ -75,10 +75,22 @@ func replayTape(l *Loaded, spec RunSpec, t *Tape) ReplayResult {
 	tapePath := filepath.Join(tmp, "tape.json")
 	os.WriteFile(tapePath, tb, 0o644)
 
-	cmd := exec.Command("go", "test", "-tags="+t.Tags, "-vet=off", "-v", "-count=1", "-overlay", ovp, "-run", "^TestVerifReplay$", "-timeout", "300s", "./"+t.Pkg)
-	cmd.Dir = repoRoot
-	cmd.Env = append(goEnv(), "VERIF_TAPE="+tapePath)
+	bin := filepath.Join(tmp, "replay.test")
+	build := exec.Command("go", "test", "-c", "-o", bin, "-tags="+t.Tags, "-vet=off", "-overlay", ovp, "./"+t.Pkg)
+	build.Dir = repoRoot
+	build.Env = goEnv()
 	var out bytes.Buffer
+	build.Stdout = &out
+	build.Stderr = &out
+	if err := build.Run(); err != nil {
+		return ReplayResult{Summary: "native replay build failed: " + truncate(out.String(), 600), Output: out.String()}
+	}
+	cmd := exec.Command(bin, "-test.run", "^TestVerifReplay$", "-test.v", "-test.timeout", "300s")
+	cmd.Dir = tmp
+	if st, err := os.Stat(filepath.Join(repoRoot, t.Pkg)); err == nil && st.IsDir() {
+		cmd.Dir = filepath.Join(repoRoot, t.Pkg)
+	}
+	cmd.Env = append(goEnv(), "VERIF_TAPE="+tapePath)
 	cmd.Stdout = &out
 	cmd.Stderr = &out
 	done := make(chan error, 1)
